@@ -273,9 +273,10 @@ func (d *Dumper) ValueLit(in any, optFns ...ValueLitOptFn) string {
 	case reflect.Bool:
 		return strconv.FormatBool(rv.Bool())
 	case reflect.Float32:
-		return strconv.FormatFloat(rv.Float(), 'f', -1, 32)
+		// 'f' prints huge values as integer literals of hundreds of digits, which overflow go integer constants
+		return strconv.FormatFloat(rv.Float(), 'g', -1, 32)
 	case reflect.Float64:
-		return strconv.FormatFloat(rv.Float(), 'f', -1, 64)
+		return strconv.FormatFloat(rv.Float(), 'g', -1, 64)
 	case reflect.String:
 		return strconv.Quote(rv.String())
 	case reflect.Interface:
